@@ -290,6 +290,8 @@ pub fn check(prop: &str, tier_name: &str) -> i32 {
             enumerated += gen::DELIVERY_VARIANTS as u64;
             items.push(Item::C16Enum { prog: pi, kind: "options".into(), idx: (0..gen::OPTION_VECTORS).collect() });
             enumerated += gen::OPTION_VECTORS as u64;
+            items.push(Item::C16Enum { prog: pi, kind: "defines".into(), idx: (0..gen::DEFINE_WORLDS).collect() });
+            enumerated += gen::DEFINE_WORLDS as u64;
             for kind in faults::SINGLE_KINDS {
                 let sp = faults::space(kind, &p.source);
                 if sp == 0 {
